@@ -52,20 +52,20 @@ type uModel struct {
 }
 
 type Update struct {
-	S     *sim.Sim
-	N     *sim.Net
-	H     *peers.History
-	Prop  string
-	M     uModel
-	Stats map[string]int
-	ops   int
-	nOps  int
-	done  bool
-	mark  []string // the secret markers planted in TLS private keys
+	S       *sim.Sim
+	N       *sim.Net
+	H       *peers.History
+	Prop    string
+	M       uModel
+	Stats   map[string]int
+	ops     int
+	nOps    int
+	done    bool
+	mark    []string // the secret markers planted in TLS private keys
 	cfgPath string
-	opLog []string
-	busy  bool
-	cvt   interface {
+	opLog   []string
+	busy    bool
+	cvt     interface {
 		ConvertUpdateEndpoints([]*envoy_endpoint.ClusterLoadAssignment) error
 	}
 	cl      *peers.XClient
